@@ -573,6 +573,13 @@ def main_wrap(fn):
     except MachineryError as e:
         print("MACHINERY-FAILURE: %s" % e, flush=True)
         sys.exit(2)
+    except SystemExit:
+        raise
+    except BaseException:          # a bug of the check itself is a machinery failure (exit 2), never a verdict
+        import traceback
+        traceback.print_exc()
+        print("MACHINERY-FAILURE: unexpected exception in the check script", flush=True)
+        sys.exit(2)
 
 
 def write_ndjson(path, events):
